@@ -14,6 +14,13 @@ static Plan c01_gen(uint64_t seed, int tier, uint64_t index) {
     gen_pair_cfg(r, p, true);
     if (r.chance(1, 2)) { p.cfg["sibling"] = 1; }
     if (r.chance(1, 5) && p.get("ver") != 2) { p.cfg["resume"] = 1; }
+    // TLS 1.3 0-RTT: the ticket of the first connection and the server session of the measured one may disagree about early data
+    if (p.get("ver") == 2 && r.chance(1, 4)) {
+        static const int E[] = { 0, 0, 1024, 16384 };
+        p.cfg["resume"] = 1; p.cfg["early1"] = E[1 + r.below(3)]; p.cfg["early"] = E[r.below(4)];
+        int ne = 1 + (int) r.below(3);
+        for (int i = 0; i < ne; i++) { p.ops.push_back(Op("early_send", 0, (int64_t) (1 + r.below(700)), (int64_t) r.below(2))); }
+    }
     // park the pair at an arbitrary record boundary of the honest exchange
     int park = r.chance(1, 6) ? 0 : (int) r.below(14);
     if (park) { p.ops.push_back(Op("steps", park)); }
@@ -53,6 +60,22 @@ static std::vector<Plan> c01_fixed(int tier) {
             }
         }
     }
+    // 0-RTT grid: (limit in the ticket) x (limit of the server session that receives the resumption) x early writes x TLS 1.3 suite
+    static const int E[] = { 0, 1024, 16384 };
+    for (int e1 = 0; e1 < 3; e1++) {
+        for (int e2 = 0; e2 < 3; e2++) {
+            for (int n = 1; n <= 2; n++) {
+                for (int su = 0; su < 2; su++) {
+                    Plan p; p.seed = 9000 + (uint64_t) (e1 * 100 + e2 * 10 + n * 2 + su);
+                    p.cfg["ver"] = 2; p.cfg["suite"] = su ? TLS_AES_256_GCM_SHA384 : TLS_AES_128_GCM_SHA256; p.cfg["sid_kind"] = KK_EC256;
+                    p.cfg["resume"] = 1; p.cfg["early1"] = E[e1]; p.cfg["early"] = E[e2];
+                    for (int i = 0; i < n; i++) { p.ops.push_back(Op("early_send", 0, 300 + 100 * i, i)); }
+                    p.ops.push_back(Op("hs")); p.ops.push_back(Op("send", 0, 200)); p.ops.push_back(Op("send", 1, 200)); p.ops.push_back(Op("pump"));
+                    v.push_back(p);
+                }
+            }
+        }
+    }
     return v;
 }
 
@@ -74,6 +97,16 @@ static RunResult c01_exec(const Plan &p) {
                 Bytes S = concat(o.sent[dir]), D = concat(rcv.delivered);
                 std::string ctx = std::string(role) + "," + ver + "," + (o.tampered[dir] ? o.tamper_kind[dir] : "none");
                 if (o.tampered[dir]) { any_fault = true; }
+                // TLS 1.3 0-RTT: a server session that enabled early data may deliver, before completion, exactly what the client wrote early
+                // (the PSK authenticates it); everything else only after completion
+                size_t n_pre = 0; Bytes Dpre;
+                for (size_t i = 0; i < rcv.delivered.size() && i < rcv.delivered_complete.size() && !rcv.delivered_complete[i]; i++) { n_pre++; Dpre.insert(Dpre.end(), rcv.delivered[i].begin(), rcv.delivered[i].end()); }
+                bool early_ok = false;
+                if (n_pre && dir == DIR_C2S && pr.pc.version == v_tls_1_3 && pr.pc.max_early_data > 0 && !o.early_sent.empty()) {
+                    Bytes E = concat(o.early_sent);
+                    early_ok = is_prefix(Dpre, E);
+                    if (early_ok) { D.erase(D.begin(), D.begin() + (long) Dpre.size()); res.count("early.delivered_before_completion", (int64_t) n_pre); }
+                }
                 bool from_peer;
                 if (pr.pc.dtls()) {
                     from_peer = true;
@@ -85,12 +118,15 @@ static RunResult c01_exec(const Plan &p) {
                                 "; receiver complete=" + std::to_string(rcv.complete) + " first tamper=" + o.tamper_kind[dir] + " in hsState " + std::to_string(o.tamper_hs_state[dir]));
                     break;
                 }
-                for (size_t i = 0; i < rcv.delivered_complete.size(); i++) {
+                for (size_t i = early_ok ? n_pre : 0; i < rcv.delivered_complete.size(); i++) {
                     if (!rcv.delivered_complete[i]) {
                         res.violate("appdata_before_completion", ctx, "application data delivered while HandshakeIsComplete()==0 (chunk " + std::to_string(i) + ")");
                         break;
                     }
                 }
+            }
+            if (!res.violation && o.early_write_unpermitted) {
+                res.violate("encode_before_completion", "cli," + ver + ",early_write", "the client accepted an application write before completion although matrixSslGetMaxEarlyData() reported that early data is not permitted");
             }
             for (int role = 0; role < 2 && !res.violation; role++) {
                 if (o.encode_ok_before_complete[role]) {
